@@ -371,6 +371,8 @@ class RegRef:
                 o._addr(TX_ADDR, addr)
                 if o.r[EN_AA] & 1 or lite:  # "RX pipe 0 is appropriated with the TX address ... when auto_ack is
                     o._addr(RX_ADDR_P0, addr)  # enabled for data pipe 0"
+            if len(addr) > 5:  # oversize: not a documented input; rejecting it or using the first 5 bytes are both safe
+                alt(("ValueError", "IndexError"))
             alt(None, f)
         elif name == "start_carrier_wave":
             def f(o):  # PS appendix C: PWR_UP=1, PRIM_RX=0, CONT_WAVE=1, PLL_LOCK=1, CE high
